@@ -208,6 +208,8 @@ type vfWorldConf struct {
 	// full-week pause schedule instead of the empty one.
 	ServiceIDs     []string
 	ServicesPaused bool
+	// ServicesZone, if set, is the time zone of the global pause schedule.
+	ServicesZone string
 
 	// Clients are added to a real client.Storage which then provides
 	// ApplyClientFiltering.
@@ -270,6 +272,22 @@ func vfFullWeek() (w *schedule.Weekly) {
 	const day = `{"start":0,"end":86400000}`
 	js := `{"time_zone":"UTC","sun":` + day + `,"mon":` + day + `,"tue":` + day + `,"wed":` + day +
 		`,"thu":` + day + `,"fri":` + day + `,"sat":` + day + `}`
+	if err := w.UnmarshalJSON([]byte(js)); err != nil {
+		panic(err)
+	}
+
+	return w
+}
+
+// vfWeekIn is the all-week (full) or never (not full) pause schedule in zone.
+func vfWeekIn(zone string, full bool) (w *schedule.Weekly) {
+	w = &schedule.Weekly{}
+	js := `{"time_zone":"` + zone + `"}`
+	if full {
+		const day = `{"start":0,"end":86400000}`
+		js = `{"time_zone":"` + zone + `","sun":` + day + `,"mon":` + day + `,"tue":` + day + `,"wed":` + day +
+			`,"thu":` + day + `,"fri":` + day + `,"sat":` + day + `}`
+	}
 	if err := w.UnmarshalJSON([]byte(js)); err != nil {
 		panic(err)
 	}
@@ -364,6 +382,9 @@ func vfNewWorld(c *vfWorldConf) (w *vfWorld, err error) {
 	sched := vfEmptyWeek()
 	if c.ServicesPaused {
 		sched = vfFullWeek()
+	}
+	if c.ServicesZone != "" {
+		sched = vfWeekIn(c.ServicesZone, c.ServicesPaused)
 	}
 
 	ttl := c.BlockedTTL
